@@ -2,19 +2,20 @@ CONSTANTS
     Shape <- Shape3
     EpochOrderStrict = FALSE
     CacheSound = FALSE
+    FetchedHashChecked = FALSE
     MaxAlter = 1
     TamperFields = {"nextAvk"}
     MsgModes = {"k"}
     Twins = FALSE
-    ForgeEpochs = {3, 4}
-    Forge2Pars = {"q"}
+    ForgeEpochs = {2, 3, 4}
+    Forge2Pars = {"p"}
     ForgeKeys = {"A"}
-    ForgePars = {"q"}
+    ForgePars = {"p", "q"}
     ForgeNextAvk = {"A"}
-    ForgeNextPars = {"q"}
+    ForgeNextPars = {"p"}
     ForgeLevels = 2
     MaxAttempts = 2
-    MaxJumps = 0
+    MaxJumps = 1
 SPECIFICATION Spec
 VIEW View
 INVARIANTS ClientSound GenPrint
